@@ -175,6 +175,7 @@ fn main() {
             let summary = match get("kind", "interp").as_str() {
                 "lex" => replay::replay_lex_file(&get("in", "/dev/stdin")),
                 "parse" => replay::replay_parse_file(&get("in", "/dev/stdin")),
+                "verdict" => replay::replay_verdict_file(&get("in", "/dev/stdin")),
                 _ => replay::replay_file(&get("in", "/dev/stdin"), seed),
             };
             std::fs::write(get("out", "/dev/stdout"), serde_json::to_string(&summary).unwrap()).expect("write summary");
